@@ -206,6 +206,7 @@ fn run_sequence(k: usize, ops: &[Op], st: &mut Stats) -> Result<bool, String> {
                             Some((_, l)) => {
                                 interesting = true;
                                 st.class("new_frag-replaces-slot");
+                                st.class_if(l < PDU_SIZE, "new_frag-on-slot-holding-undersized-buffer");
                                 if b.len() != l {
                                     bad!("new_frag", i, "slot {} was occupied (buffer {}), new_frag must reuse it but returned buffer {}", idx, l, b.len());
                                 }
@@ -453,7 +454,7 @@ pub fn property() -> Property {
                 exhaustive: |_| true,
                 check: check_enum,
                 describe: desc_enum,
-                required_classes: &["refusal-overflow", "refusal-too-small", "refusal-underflow", "refusal-undefined-id", "new_frag-replaces-slot", "take-with-aliasing-id", "save-aliasing-take-right-take"],
+                required_classes: &["refusal-overflow", "refusal-too-small", "refusal-underflow", "refusal-undefined-id", "new_frag-replaces-slot", "new_frag-on-slot-holding-undersized-buffer", "take-with-aliasing-id", "save-aliasing-take-right-take"],
             }),
             Box::new(GenPart {
                 name: "random-sequences",
@@ -462,7 +463,7 @@ pub fn property() -> Property {
                 fuzz_decode: Some(crate::fuzzdec::c17_case),
                 strategy: rand_strategy,
                 check: check_rand,
-                required_classes: &["refusal-overflow", "refusal-undefined-id", "refusal-occupied-slot", "new_frag-replaces-slot", "save-aliasing-take-right-take"],
+                required_classes: &["refusal-overflow", "refusal-undefined-id", "refusal-occupied-slot", "new_frag-replaces-slot", "new_frag-on-slot-holding-undersized-buffer", "save-aliasing-take-right-take"],
             }),
         ],
     }
